@@ -33,8 +33,13 @@ RULES = {
     "collects its nodes with reads `attr.value` only for attributes that are not references (`is_ref()` leaves the iteration first) - "
     "for a reference attribute of graph type (an If in a function body whose branches are attribute parameters) the value is None "
     "and sorting, or merely walking, the function raises TypeError",
+    "R8": "the edge recorder drops an edge for two reasons only: in the local function through which sort() records a predecessor, every "
+    "exit before the recording statements is guarded by tests of the form `<predecessor> is None` (an input without a producer) or "
+    "`<predecessor> not in <table of traversed nodes>` (a producer outside the sorted graphs, R5) - any other test, such as "
+    "`predecessor is child`, decides by itself which dependencies exist: a node that consumes its own output is then not counted, the "
+    "cycle check passes and a cyclic graph is reordered instead of being refused unchanged",
 }
-FLOORS = {"R1": 2, "R2": 4, "R3": 3, "R4": 1, "R5": 2, "R6": 2, "R7": 2}
+FLOORS = {"R1": 2, "R2": 4, "R3": 3, "R4": 1, "R5": 2, "R6": 2, "R7": 2, "R8": 1}
 EXPLANATION = (
     "Dominance of the cycle rejection over every state-writing call of Graph.sort (effect summaries), and structural "
     "checks that relinking goes through the ownership-preserving API into the graph each node already belongs to."
@@ -244,6 +249,70 @@ def run(ctx):
                   how="control conditions of the edge-recording statement inside the loop over node.inputs (in sort or in the helper it iterates); exits before it",
                   construct="producer edge recorded conditionally")
     ctx.require(n_edges >= 1, "Graph.sort: loop recording the producers of node.inputs not found")
+    # R8: the local edge recorder(s)
+    n8 = 0
+    recorders = set()
+    for p_ in parts:
+        for q in [p_] + list(p_.nested.values()):
+            for c in calls_in(q):
+                if isinstance(c.func, ast.Name) and c.func.id in p_.nested and len(c.args) == 2:
+                    recorders.add(p_.nested[c.func.id])
+    for r in sorted(recorders, key=lambda x: x.key):
+        if len(r.params) != 2:
+            continue
+        pred = r.params[1]
+
+        def is_record(x) -> bool:
+            # an update of a table: <table>[…].append(…) / <table>[…] += … / <table>[…] = …
+            if isinstance(x, ast.Call) and isinstance(x.func, ast.Attribute) and x.func.attr in ("append", "add", "appendleft") and isinstance(x.func.value, ast.Subscript):
+                return True
+            if isinstance(x, ast.AugAssign) and isinstance(x.target, ast.Subscript):
+                return True
+            return isinstance(x, ast.Assign) and any(isinstance(t, ast.Subscript) for t in x.targets)
+
+        def atom(t, positive: bool) -> bool:
+            if isinstance(t, ast.Compare) and len(t.ops) == 1 and isinstance(t.left, ast.Name) and t.left.id == pred:
+                if isinstance(t.ops[0], ast.IsNot if positive else ast.Is) and isinstance(t.comparators[0], ast.Constant) and t.comparators[0].value is None:
+                    return True
+                if isinstance(t.ops[0], ast.In if positive else ast.NotIn) and isinstance(t.comparators[0], (ast.Name, ast.Attribute)):
+                    return True
+            return False
+
+        def allowed(t, positive: bool) -> bool:
+            """positive: a test under which the edge IS recorded (`p is not None and p in table`); otherwise a test under which
+            the recorder is left (`p is None or p not in table`)."""
+            if isinstance(t, ast.UnaryOp) and isinstance(t.op, ast.Not):
+                return allowed(t.operand, not positive)
+            if isinstance(t, ast.BoolOp) and isinstance(t.op, ast.And if positive else ast.Or):
+                return all(allowed(v, positive) for v in t.values)
+            return atom(t, positive)
+
+        records = [x for x in own_nodes(r.node) if is_record(x)]
+        if not records:
+            continue
+        n8 += 1
+        bad = None
+        for x in records:
+            child, par = x, getattr(x, "_parent", None)
+            while par is not None:
+                for fld in ("body", "orelse"):
+                    blk = getattr(par, fld, None)
+                    if isinstance(blk, list) and child in blk:
+                        for st in blk[: blk.index(child)]:
+                            if isinstance(st, ast.If) and not st.orelse and st.body and isinstance(st.body[-1], (ast.Return, ast.Raise)) and not allowed(st.test, False):
+                                bad = bad or st
+                        if isinstance(par, ast.If) and not allowed(par.test, fld == "body"):
+                            bad = bad or par
+                if par is r.node:
+                    break
+                child, par = par, getattr(par, "_parent", None)
+        ctx.check("R8", f"{r.local}: an edge is dropped only for a missing or foreign producer", bad is None, r, bad if bad is not None else records[0],
+                  f"`{norm(bad.test)[:80] if bad is not None else ''}` decides whether the predecessor is counted, for a reason other than `{pred} is None` / `{pred} not in <traversed nodes>`: "
+                  "the dependency is real but invisible to the sort - a node that reads its own output (a cycle of length one) is accepted and the graph is "
+                  "reordered instead of being refused unchanged",
+                  how="tests that govern the table updates of the local function that records predecessors (two parameters: child, predecessor): guard clauses before them and ifs around them",
+                  construct=f"edge dropped by {norm(bad.test)[:60] if bad is not None else ''}")
+    ctx.require(n8 >= 1, "the local function through which Graph.sort records predecessors was not found")
     # R7
     from ..shared import ref_attr_guards
 
